@@ -67,10 +67,17 @@ func calleeNames(p *Pkg, n ast.Node) []string {
 	seen := map[string]bool{}
 	ast.Inspect(n, func(x ast.Node) bool {
 		switch c := x.(type) {
+		case *ast.DeferStmt:
+			if x != n {
+				return false // registered, not called here (reported under defers_before)
+			}
 		case *ast.FuncLit:
 			return false // a closure that is only created, not called
 		case *ast.CallExpr:
-			name := p.Src(c.Fun)
+			name := "<func-literal>"
+			if _, isLit := c.Fun.(*ast.FuncLit); !isLit {
+				name = p.Src(c.Fun)
+			}
 			if !seen[name] {
 				seen[name] = true
 				out = append(out, name)
@@ -163,10 +170,10 @@ func auditRecover(p *Pkg, dir, fn string) (*recoverSite, error) {
 	return s, nil
 }
 
-func coqStrList(xs []string) (string, error) {
+func g9StrList(xs []string) (string, error) {
 	var items []string
 	for _, x := range xs {
-		q, err := coqAsciiString(x)
+		q, err := g9AsciiString(x)
 		if err != nil {
 			return "", err
 		}
@@ -175,7 +182,7 @@ func coqStrList(xs []string) (string, error) {
 	return coqList(items, 0), nil
 }
 
-func coqBool(b bool) string {
+func g9Bool(b bool) string {
 	if b {
 		return "true"
 	}
@@ -256,24 +263,24 @@ func genRecoverSites(e *Env) error {
 	out.WriteString("  rs_handler_sets : list string; rs_repanics : bool; rs_named_err : bool }.\n\n")
 	var items []string
 	for _, s := range sites {
-		cb, err := coqStrList(s.CallsBefore)
+		cb, err := g9StrList(s.CallsBefore)
 		if err != nil {
 			return err
 		}
-		db, err := coqStrList(s.DefersBefore)
+		db, err := g9StrList(s.DefersBefore)
 		if err != nil {
 			return err
 		}
-		hc, err := coqStrList(s.HandlerCalls)
+		hc, err := g9StrList(s.HandlerCalls)
 		if err != nil {
 			return err
 		}
-		hs, err := coqStrList(s.HandlerSets)
+		hs, err := g9StrList(s.HandlerSets)
 		if err != nil {
 			return err
 		}
 		items = append(items, fmt.Sprintf("{| rs_dir := %s; rs_func := %s; rs_has_defer := %s; rs_guarded := %s;\n      rs_calls_before := %s;\n      rs_defers_before := %s; rs_handler_calls := %s;\n      rs_handler_sets := %s; rs_repanics := %s; rs_named_err := %s |}",
-			coqString(s.Dir), coqString(s.Func), coqBool(s.HasDefer), coqBool(s.Guarded), cb, db, hc, hs, coqBool(s.Repanics), coqBool(s.NamedErr)))
+			coqString(s.Dir), coqString(s.Func), g9Bool(s.HasDefer), g9Bool(s.Guarded), cb, db, hc, hs, g9Bool(s.Repanics), g9Bool(s.NamedErr)))
 	}
 	fmt.Fprintf(&out, "Definition recover_sites : list recover_site :=\n  %s.\n\n", coqList(items, 1))
 	fmt.Fprintf(&out, "Definition enable_recover_default : bool := %s.\n\n", enableDefault)
